@@ -25,6 +25,7 @@ import (
 	"github.com/evanoberholster/imagemeta/exif2"
 	"github.com/evanoberholster/imagemeta/imagehash"
 	"github.com/evanoberholster/imagemeta/imagetype"
+	"github.com/evanoberholster/imagemeta/isobmff"
 	"github.com/evanoberholster/imagemeta/jpeg"
 	"github.com/evanoberholster/imagemeta/meta"
 )
@@ -77,6 +78,40 @@ func runOne(j job) (res string) {
 	case "ItScan":
 		t, err := imagetype.Scan(rd)
 		return fmt.Sprint(t, err)
+	case "DecodeHeif":
+		e, err := imagemeta.DecodeHeif(rd)
+		return fmt.Sprint(err) + e.String()
+	case "Bmff":
+		// the package-level ISOBMFF reader on a plain reader (takes its bufio.Reader from isobmff's own pool), next to the
+		// facade decoders that hand it their own pooled reader
+		var sb strings.Builder
+		br := isobmff.NewReader(rd)
+		br.ExifReader = func(r io.Reader, h meta.ExifHeader) error {
+			b := make([]byte, 64)
+			n, _ := io.ReadFull(r, b)
+			fmt.Fprint(&sb, "E", h.FirstIfdOffset, h.ExifLength, n, b[:n])
+			return nil
+		}
+		br.XMPReader = func(r io.Reader) error {
+			b, _ := io.ReadAll(r)
+			fmt.Fprint(&sb, "X", len(b))
+			return nil
+		}
+		err := br.ReadFTYP()
+		for k := 0; err == nil && k < 64; k++ {
+			err = br.ReadMetadata()
+			fmt.Fprint(&sb, ".")
+		}
+		br.Close()
+		return fmt.Sprint(err) + sb.String()
+	case "Blur":
+		img := image.NewRGBA(image.Rect(0, 0, 32, 32))
+		r := rand.New(rand.NewSource(int64(len(j.data)) + int64(j.data[0])))
+		for i := 0; i < 32*32; i++ {
+			img.Set(i%32, i/32, color.RGBA{uint8(r.Intn(256)), uint8(i), uint8(i / 32), 255})
+		}
+		h, err := imagehash.EncodeBlurHashFast(img)
+		return fmt.Sprint(h, err)
 	case "Hash":
 		// the bytes seed a 64x64 image
 		img := image.NewRGBA(image.Rect(0, 0, 64, 64))
@@ -111,13 +146,46 @@ func main() {
 		b, _ := hex.DecodeString(p[1])
 		jobs = append(jobs, job{p[0], b})
 	}
+	mismatches := 0
+	var mu sync.Mutex
+	var first string
+	// cold phase: the very first calls of the process are concurrent (lazy initialisation, empty pools, empty caches);
+	// their results are compared with the sequential results computed afterwards
+	coldIdx := make([][]int, ng)
+	coldRes := make([][]string, ng)
+	{
+		var wg sync.WaitGroup
+		start := make(chan struct{})
+		for g := 0; g < ng; g++ {
+			wg.Add(1)
+			go func(g int) {
+				defer wg.Done()
+				r := rand.New(rand.NewSource(seed*31 + int64(g)))
+				<-start
+				for k := 0; k < 6; k++ {
+					i := r.Intn(len(jobs))
+					coldIdx[g] = append(coldIdx[g], i)
+					coldRes[g] = append(coldRes[g], runOne(jobs[i]))
+				}
+			}(g)
+		}
+		close(start)
+		wg.Wait()
+	}
 	golden := make([]string, len(jobs))
 	for i, j := range jobs {
 		golden[i] = runOne(j)
 	}
-	mismatches := 0
-	var mu sync.Mutex
-	var first string
+	for g := range coldIdx {
+		for k, i := range coldIdx[g] {
+			if coldRes[g][k] != golden[i] {
+				mismatches++
+				if first == "" {
+					first = fmt.Sprintf("(cold start) %s %s\n  sequential: %.300s\n  concurrent: %.300s", jobs[i].entry, hex.EncodeToString(jobs[i].data), golden[i], coldRes[g][k])
+				}
+			}
+		}
+	}
 	for _, procs := range []int{1, 2, runtime.NumCPU()} {
 		runtime.GOMAXPROCS(procs)
 		var wg sync.WaitGroup
